@@ -161,6 +161,35 @@ fn main() {
                 "ky": key(rv), "kstd": key(st), "sy": sc(rv), "sstd": sc(st), "sx": sc(base), "panic": p})).unwrap();
         }
     }
+    // ---- the same functions at the ends and special points of their domains
+    #[cfg(any(feature = "libm", feature = "mm", feature = "std"))]
+    {
+        let one_m = f32::from_bits(1.0f32.to_bits() - 1);
+        for unit in [1.0f32, -1.0, 0.0, -0.0, one_m, -one_m, 0.5, -0.5, 1e-20, -1e-20, 0.70710677, -0.70710677] {
+            emit1(&mut out, be, "sel", "asin", unit, guard(|| ff::asin(unit)), unit.asin());
+            emit1(&mut out, be, "sel", "acos", unit, guard(|| ff::acos(unit)), unit.acos());
+        }
+        let pi = core::f32::consts::PI;
+        for ang in [0.0f32, -0.0, pi / 2.0, -pi / 2.0, pi, -pi, 2.0 * pi, pi / 4.0, 3.0 * pi / 2.0, 1e-20, 25.0, -25.0] {
+            emit1(&mut out, be, "sel", "sin", ang, guard(|| ff::sin(ang)), ang.sin());
+            emit1(&mut out, be, "sel", "cos", ang, guard(|| ff::cos(ang)), ang.cos());
+        }
+        for t in [0.0f32, -0.0, pi / 4.0, -pi / 4.0, 1.4, -1.4] {
+            emit1(&mut out, be, "sel", "tan", t, guard(|| ff::tan(t)), t.tan());
+        }
+        for pos in [1.0f32, 4.0, 0.25, 2.0, 1.0e-6, 1.0e6, 9.0e-7, 1.0e-12, 1.0e12] {
+            emit1(&mut out, be, "sel", "sqrt", pos, guard(|| ff::sqrt(pos)), pos.sqrt());
+        }
+        for (ay, ax) in [(0.0f32, 1.0f32), (1.0, 0.0), (0.0, -1.0), (-1.0, 0.0), (1.0, 1.0), (-1.0, -1.0), (1e-6, 0.0), (0.0, 1e-6),
+                         (-1e-6, -1e-6), (1e6, 1e-6), (1e-6, 1e6)] {
+            // (not probed: y = -0.0 on the negative x axis, where std returns -pi and an approximation
+            // may as well return +pi - the same angle, on the branch cut)
+            let r = guard(|| ff::atan2(ay, ax));
+            let (p, rv) = match r { Some(v) => (0, v), None => (1, 0.0) };
+            writeln!(out, "{}", json!({"op": "f1", "be": be, "which": "sel", "fn": "atan2", "x": rec(ay), "y": rec(rv), "ystd": rec(ay.atan2(ax)),
+                "ky": key(rv), "kstd": key(ay.atan2(ax)), "sy": sc(rv), "sstd": sc(ay.atan2(ax)), "sx": sc(ay), "panic": p})).unwrap();
+        }
+    }
     // the reciprocal square roots of the libm and mm modules over the whole positive range
     #[cfg(feature = "libm")]
     {
